@@ -448,6 +448,16 @@ func Unpack(r io.Reader, dst string) error {
 
 // Unpack unpacks the archive data in r into directory dst.
 func (p *Packer) Unpack(r io.Reader, dst string) (err error) {
+	// A relative destination names a directory below the working directory
+	// at the time of the call. The checks that keep entries inside dst
+	// compare paths as text, which does not work out for "." and its like.
+	if !filepath.IsAbs(dst) {
+		dst, err = filepath.Abs(dst)
+		if err != nil {
+			return fmt.Errorf("failed making path %q absolute: %w", dst, err)
+		}
+	}
+
 	// Track directory times and permissions so they can be restored after all files
 	// are extracted. This metadata modification is delayed because extracting files
 	// into a new directory would necessarily change its timestamps. By way of
